@@ -339,7 +339,7 @@ func runBatch(p Prop, wl Workload, tier string, seed int64, b, nb int, bin, runD
 	for {
 		to := wl.BatchTimeout
 		if to <= 0 {
-			to = 20 * time.Minute
+			to = 45 * time.Minute
 		}
 		ctx, cancel := context.WithTimeout(context.Background(), to)
 		outPath := filepath.Join(runDir, fmt.Sprintf("out-%s-%d-%d.txt", wl.Name, b, from))
